@@ -5,5 +5,7 @@ cp /verif/contracts/scipipe.go /repo/zz_verif_contracts.go
 [ -f /verif/contracts/components.go ] && cp /verif/contracts/components.go /repo/components/zz_verif_contracts.go
 [ -f /verif/contracts/cmd.go ] && cp /verif/contracts/cmd.go /repo/cmd/scipipe/zz_verif_contracts.go
 cd /repo
-git add zz_verif_contracts.go components/zz_verif_contracts.go cmd/scipipe/zz_verif_contracts.go 2>/dev/null || git add zz_verif_contracts.go
+for f in zz_verif_contracts.go components/zz_verif_contracts.go cmd/scipipe/zz_verif_contracts.go; do
+  [ -f $f ] && git add $f
+done
 if ! git diff --cached --quiet; then git commit -qm "verif: update contract files (build tag verif, comments only)"; echo "committed contracts in /repo"; fi
